@@ -450,7 +450,9 @@ class FormatMachine(MachineBase):
                 data_len = len(self.fs.get(path) or b"")
                 if offset and data_len:
                     f.read(offset % data_len)       # loader must rewind
-                new.load(f)
+                # every third time the handle is a delegating wrapper (what tempfile.NamedTemporaryFile or codecs.open hand
+                # out): seekable and readable, but not an io.IOBase instance
+                new.load(_HandleProxy(f) if offset % 3 == 1 else f)
             finally:
                 f.close()
         elif via == "loads":
@@ -978,6 +980,25 @@ class FormatMachine(MachineBase):
                 raise Violation("C08", "C08.repeated_dump_same_bytes", "repeat-differs/%s" % self.FORMAT,
                                 {"diff": _text_diff(texts[0], t)})
         return "same"
+
+
+class _HandleProxy(object):
+    """a file-like object that delegates everything to a real handle (the shape of tempfile's wrapper)"""
+
+    def __init__(self, f):
+        self.file = f
+
+    def __getattr__(self, name):
+        return getattr(self.__dict__["file"], name)
+
+    def __iter__(self):
+        return iter(self.file)
+
+    def __enter__(self):
+        return self
+
+    def __exit__(self, *a):
+        return False
 
 
 def pick_indent(rng):
